@@ -115,7 +115,8 @@ impl<'a, 'ast> Visit<'ast> for FnVisitor<'a> {
                 unders.push(sp(self.li, w.span()));
             }
         }
-        self.closures.push(json!({"span": sp(self.li, c.span()), "wild_params": unders, "body": sp(self.li, c.body.span())}));
+        let ret = match &c.output { syn::ReturnType::Type(arrow, ty) => json!([sp(self.li, arrow.span())[0], sp(self.li, ty.span())[1]]), _ => Value::Null };
+        self.closures.push(json!({"span": sp(self.li, c.span()), "wild_params": unders, "body": sp(self.li, c.body.span()), "ret": ret}));
         visit::visit_expr_closure(self, c);
     }
     fn visit_macro(&mut self, m: &'ast syn::Macro) {
